@@ -306,6 +306,42 @@ mod hot {
         }
     }
 
+    /// C06: one rewrite is reported once. After each reload several threads ask `reloaded_global()` at the same time
+    /// (exactly one of them may be told true) and each polls a ReloadWatcher of its own (each is told true once).
+    pub fn c06(scn: u64) {
+        let mut r = super::Rng(scn);
+        let mem = Mem::default();
+        mem.put("a", 1);
+        let cache = AssetCache::with_source(mem.clone());
+        let h = cache.load::<Words>("a").unwrap();
+        let nthreads = 2 + r.below(2) as usize;
+        let reloads = 1 + r.below(2);
+        let mut watchers: Vec<_> = (0..nthreads).map(|_| h.reload_watcher()).collect();
+        assert!(!h.reloaded_global(), "C06: reloaded_global true before any reload");
+        for v in 0..reloads {
+            mem.put("a", 2 + v);
+            mem.notify("a");
+            cache.hot_reload();
+            let trues = std::sync::atomic::AtomicUsize::new(0);
+            std::thread::scope(|s| {
+                for w in watchers.iter_mut() {
+                    let trues = &trues;
+                    s.spawn(move || {
+                        if h.reloaded_global() {
+                            trues.fetch_add(1, std::sync::atomic::Ordering::SeqCst);
+                        }
+                        assert!(w.reloaded(), "C06: a watcher armed before the reload was not told about it");
+                        assert!(!w.reloaded(), "C06: a watcher reported the same reload twice");
+                    });
+                }
+            });
+            assert_eq!(trues.load(std::sync::atomic::Ordering::SeqCst), 1, "C06: one rewrite, {nthreads} concurrent callers of reloaded_global: exactly one must be told true");
+            assert!(!h.reloaded_global(), "C06: reloaded_global true again without a new reload");
+        }
+        drop(cache);
+        mem.wait_reloader_gone();
+    }
+
     pub fn c07(scn: u64) {
         let mut r = super::Rng(scn);
         let mem = Mem::default();
@@ -370,6 +406,7 @@ fn main() {
         Some("C16") => c16(scn),
         Some("C17") => c17(scn),
         Some("C18") => c18(scn),
+        Some("C06") => hot::c06(scn),
         Some("C07") => hot::c07(scn),
         Some("C01") => hot::c01(scn),
         _ => { eprintln!("usage: kernels C07|C16|C17|C18 <scenario>"); std::process::exit(2) }
